@@ -577,12 +577,18 @@ func getMultiBestPath(id string, pathList []*Path) []*Path {
 	}
 	best := pathList[0]
 
-	// Attempt to find the first path that is both reachable and worse than the
-	// best path. Then return a slice paths from the best to that index.
-	index := sort.Search(len(pathList), func(i int) bool {
-		return pathList[i].IsNexthopInvalid || pathList[i].Compare(best) != 0
-	})
-	return pathList[:index]
+	// Collect every reachable path that compares equal to the best path.
+	// The list is not totally ordered by Compare() (MED is only comparable
+	// between some paths, eBGP paths are ordered by age), so the equal paths
+	// are not necessarily a prefix of the list and a binary search cannot be
+	// used here.
+	multi := make([]*Path, 0, len(pathList))
+	for _, p := range pathList {
+		if !p.IsNexthopInvalid && p.Compare(best) == 0 {
+			multi = append(multi, p)
+		}
+	}
+	return multi
 }
 
 func (u *Update) GetWithdrawnPath() []*Path {
